@@ -39,6 +39,12 @@ def run(ctx) -> None:
             ctx.reuse("C03.tracked-amount", c01.pair_ad, dev, meth, track, kind_)
     ctx.reuse("C03.tracked-amount", c01.pair_distribute, "C01.pair-distribute")
     ctx.reuse("C03.step-guard", c06.multi_disp)
+    ctx.reuse("C03.step-guard", c06.config)
+    from . import c13
+
+    ctx.reuse("C03.tracked-amount", c13.one_to_one)
+    for name_, track_ in (("evo_aspirate", "remove"), ("evo_dispense", "add")):
+        ctx.reuse("C03.tracked-amount", c13.same_args, name_, track_)
     ctx.guard("C03.step-guard", step_guard_validator)
     ctx.guard("C03.step-guard", step_guard_wiring)
     ctx.guard("C03.step-guard", step_guard_evo)
